@@ -56,6 +56,60 @@ func runC17(p *core.Prog, r *core.Report) {
 			core.Undecide("only %d repository functions reachable from the validation/planning entries", len(fns))
 		}
 		r.Notes = append(r.Notes, fmt.Sprintf("C17.R1: %d repository functions reachable from the 5 entry points", len(fns)))
+		// results of segment lookups can be nil for request-derived bounds (stop block below the modules' initial block inside
+		// one segment): they are dereferenced only behind a nil test
+		rangeFn := p.FuncObj(pkgBlock, "Segmenter.Range")
+		nLook := 0
+		for _, fn := range fns {
+			for _, c := range core.FindInstrs(fn, core.IsCallTo(rangeFn)) {
+				cv := c.(ssa.Value)
+				var derefs []ssa.Instruction
+				var nonNil []core.Edge
+				for _, ref := range *cv.Referrers() {
+					switch x := ref.(type) {
+					case *ssa.FieldAddr:
+						derefs = append(derefs, x)
+					case *ssa.Call:
+						if len(x.Call.Args) > 0 && x.Call.Args[0] == cv && !x.Call.IsInvoke() {
+							if cl := core.CommonCallee(x.Common()); cl != nil && cl.Name() != "String" && cl.Name() != "MarshalLogObject" {
+								if sig, ok := cl.Type().(*types.Signature); ok && sig.Recv() != nil {
+									derefs = append(derefs, x)
+								}
+							}
+						}
+					case *ssa.BinOp:
+						if k, ok := x.Y.(*ssa.Const); ok && k.IsNil() && (x.Op == token.EQL || x.Op == token.NEQ) {
+							for _, rr := range *x.Referrers() {
+								if ifi, ok := rr.(*ssa.If); ok {
+									idx := 0
+									if x.Op == token.EQL {
+										idx = 1
+									}
+									nonNil = append(nonNil, core.Edge{From: ifi.Block(), Idx: idx})
+								}
+							}
+						}
+					}
+				}
+				if len(derefs) == 0 {
+					continue
+				}
+				nLook++
+				q := core.PathQuery{Fn: fn, CutEdge: func(e core.Edge) bool { return containsEdge(nonNil, e) }}
+				_, reach := q.CanReach(c, func(x ssa.Instruction) bool {
+					for _, d := range derefs {
+						if x == d {
+							return true
+						}
+					}
+					return false
+				})
+				r.Check(len(nonNil) > 0 && !reach, "C17.R1", "nil-segment@"+core.FuncName(fn), "the result of Segmenter.Range(…), which is nil for an index without segment (e.g. a stop block below the initial block inside one segment), is dereferenced only behind a nil test", "a dereference of the lookup result is reachable without a nil test", p.Pos(c.Pos()))
+			}
+		}
+		if nLook == 0 {
+			core.Undecide("no dereferenced Segmenter.Range result found in the functions reachable from planning")
+		}
 		var sites []reachSite
 		for _, fn := range fns {
 			r.Touch(core.FuncName(fn))
